@@ -54,6 +54,16 @@ class Interp(ExprMixin, CallMixin):
         self.depth = 0
         return self.call_function(st, fv, list(args), dict(kwargs or {}), None, None, cls_ctx=cls_ctx or fi.cls)
 
+    def sym_class(self, tok):
+        """In-repo class of an opaque object, if the scenario declares one."""
+        ci = self.cfg.sym_classes.get(tok)
+        if ci is None:
+            for fn in self.cfg.sym_class_fns:
+                ci = fn(tok)
+                if ci is not None:
+                    break
+        return ci
+
     # ----------------------------------------------------------------- pins
     class _Pin:
         __slots__ = ("i", "refs")
@@ -325,7 +335,7 @@ class Interp(ExprMixin, CallMixin):
             return states
         for s in states:
             self.gc(s)
-        return merge_states(states)
+        return merge_states(states, guard_pred=self.cfg.guard_pred)
 
     def exec_stmt(self, stmt, st: State, frame: Frame) -> List[Outcome]:
         self.tick()
@@ -555,10 +565,10 @@ class Interp(ExprMixin, CallMixin):
             if isinstance(o, ListO) and o.rest is None:
                 return "known", list(o.items)
             if isinstance(o, DictO) and o.rest is None:
-                return "known", [Const(k) for k in o.items]
+                return "known", [self.dict_key_value(k) for k in o.items]
             if isinstance(o, (ListO, DictO)):
                 rest = o.rest
-                known = list(o.items) if isinstance(o, ListO) else [Const(k) for k in o.items]
+                known = list(o.items) if isinstance(o, ListO) else [self.dict_key_value(k) for k in o.items]
                 return "semi", (known, lambda k: rest if isinstance(o, ListO) else Sym(("key", k), {IMM}))
             if isinstance(o, Inst):
                 return "inst", o
